@@ -434,6 +434,20 @@ class C15(Engine):
         if sh.which("git") is None:
             self.stats["stub_validation"] = "git binary not found: skipped"
             return
+        # a usable git (able to create a repository in the scratch area) is a precondition of the validation, not of the check
+        import subprocess as _sp
+        import tempfile as _tf
+        probe = _tf.mkdtemp(prefix="nsim-gitprobe-", dir=core.SCRATCH_BASE)
+        try:
+            ok = _sp.run(["git", "init", "-q"], cwd=probe, capture_output=True, timeout=30).returncode == 0 and \
+                _sp.run(["git", "check-ignore", "-q", "x"], cwd=probe, capture_output=True, timeout=30).returncode == 1
+        except Exception:  # noqa
+            ok = False
+        finally:
+            sh.rmtree(probe, ignore_errors=True)
+        if not ok:
+            self.stats["stub_validation"] = "git cannot create a repository here: validation skipped"
+            return
         n = 16 if self.tier == "quick" else 80
         scs_real, scs_sim = [], []
         for i in range(n):
